@@ -307,7 +307,9 @@ func (r Ring) MultByMonomial(p1 Poly, k int, p2 Poly) {
 
 	N := r.N()
 
-	shift := (k + (N << 1)) % (N << 1)
+	// X^k has period 2N: reduce k first, so that any k (also k < -2N and k
+	// close to the int limits) maps to a shift in [0, 2N).
+	shift := ((k % (N << 1)) + (N << 1)) % (N << 1)
 
 	if shift == 0 {
 
